@@ -473,7 +473,11 @@ def deep_machines(tier):
               with_foa=False, with_ite=False, seeds=('fresh', 'used', 'warm'))
     narrow = dict(names=('x', 'y'), max_handles=2, max_ext=1, ops=('and', 'xor', 'implies'),
                   with_foa=False, with_ite=False, seeds=('fresh', 'used', 'warm'))
-    pl = [('ops2', a, 3), ('ops3', b3, 4)] if tier == 'quick' else [
+    big6 = dict(names=('x', 'y', 'z', 'w', 'v', 'u'), max_handles=3, max_ext=1,
+                ops=('and', 'or', 'xor', 'implies', 'equiv', 'diff'), with_foa=False,
+                with_refops=False, seeds=('big',))
+    pl = [('ops2', a, 3), ('ops3', b3, 4), ('big6', big6, 2)] if tier == 'quick' else [
+        ('big6', big6, 3),
         ('ops2', a, 3), ('ops2-narrow', narrow, 6), ('ops3', b3, 5)]
     out = []
     for label, kw, depth in pl:
